@@ -48,6 +48,7 @@ pub mod ffi {
     pub struct Tok {
         pub(crate) t: Token,
         pub(crate) held: Option<Box<dyn Fn(u32) -> u32>>,
+        pub(crate) held_mut: Option<Box<dyn FnMut(u32) -> u32>>,
         pub(crate) bumps: u32,
     }
 
@@ -147,7 +148,7 @@ pub mod ffi {
 
     impl Tok {
         pub fn new() -> Box<Tok> {
-            Box::new(Tok { t: Token::new(), held: None, bumps: 0 })
+            Box::new(Tok { t: Token::new(), held: None, held_mut: None, bumps: 0 })
         }
         pub fn try_new(ok: bool) -> Result<Box<Tok>, Box<ErrTok>> {
             if ok {
@@ -256,6 +257,7 @@ pub mod ffi {
             f(s.len() as u32)
         }
         pub fn hold(&mut self, f: impl Fn(u32) -> u32 + 'static) {
+            self.held_mut = None;
             self.held = Some(Box::new(f));
         }
         pub fn call_held(&self, x: u32) -> u32 {
@@ -266,6 +268,21 @@ pub mod ffi {
         }
         pub fn unhold(&mut self) {
             self.held = None;
+            self.held_mut = None;
+        }
+        /// a retained `FnMut` callback shares the slot of the retained `Fn` one
+        pub fn hold_mut(&mut self, f: impl FnMut(u32) -> u32 + 'static) {
+            self.held = None;
+            self.held_mut = Some(Box::new(f));
+        }
+        pub fn call_held_mut(&mut self, x: u32) -> u32 {
+            match &mut self.held_mut {
+                Some(f) => f(x),
+                None => 0,
+            }
+        }
+        pub fn call_mut(&self, mut f: impl FnMut(u32) -> u32) -> u32 {
+            f(self.t.id)
         }
         #[diplomat::attr(not(supports = "traits"), disable)]
         pub fn drain(&self, s: impl Sink) -> u32 {
